@@ -1,5 +1,7 @@
 import H2V.Lemmas.ConnNoPanicPAll4
 import H2V.Lemmas.ConnNoPanicPPollWitness
+import H2V.Lemmas.ConnNoPanicPDsOxPoll4
+import H2V.Lemmas.ConnNoPanicPFiNoPPQ
 /-
   C08 (no panic) — stage 4, the residual form and a witness history with the write path.
 -/
@@ -7,31 +9,102 @@ namespace H2V.Lemmas.ConnNoPanicP
 open H2V H2V.Model H2V.Model.Conn H2V.Lemmas.ConnCountsP
 open H2V.Lemmas.ConnResetP (Op run)
 
-/-- **the stream-layer theorem with `OH` as residual state hypothesis** on the states of the history -/
-theorem wreach_residual {s : Streams} {w : Writer} {H T : List Nat} (h : WReach OH s w H T) (he : ErrOK s) :
-    (s.panicked = none ∧ GoodW OH s w H T) ∨ ∃ m, s.panicked = some m ∧ FuelAll m :=
-  wreach_good Plug.residual h he
+theorem oxPre_of {s : Streams} {H T : List Nat} {op : Op} (g : Good4 s H) (h : opPre5 s T op)
+    (hin : ∀ k, opKey3 op = some k → k ∈ H) : oxPre s op := by
+  cases op
+  case refSendInformationalHeaders k f => exact h.2.1
+  case refSendPushPromise p v f =>
+    obtain ⟨x, hx, _⟩ := g.g3.good.hok p (hin p rfl)
+    exact ⟨h.2.1, ⟨x, hx⟩⟩
+  case recvPushPromise id hd => exact recvPushPromise_nopush g.g3.nopush id hd
+  all_goals exact trivial
+
+/-- no restriction on the operations -/
+abbrev AllOps : Op → Prop := fun _ => True
+/-- no residual promise about the states -/
+abbrev RT : Streams → Prop := fun _ => True
+
+/-- np-ds's `OXs` closes everything but `poll_complete`: there it is the history's promise (any operation allowed) -/
+theorem plugOX : Plug AllOps OXs OXs where
+  oh := OXs.oh
+  blank := fun hb _ => OXs_blank hb
+  step := fun g _ hd hx op hpre hin _ hnw _ _ =>
+    OXs_step g.g3.good.npi hd hx op (oxPre_of g hpre hin) hpre.2.2.1 (opNoWriter_of hnw) (op_role g.g3.good.npi op)
+  pc := fun _ _ _ _ _ _ _ _ _ h => h
+  pr := fun g _ _ hx fuel io tag => OXs_pollSendPendingRefusal hx fuel _ io tag (op_role g.g3.good.npi (.pollSendPendingRefusal fuel _ io tag))
+
+/-- the application never calls `push_request` (true of every client, and of every server that does not use server push) -/
+def NoPushReq (op : Op) : Prop := ∀ p v f, op ≠ .refSendPushPromise p v f
+
+/-- **without `push_request` nothing is left open**: `OXs` and "no PUSH_PROMISE frame is queued" (np-fi) are kept by every
+    operation, `poll_complete` included (np-ds) -/
+theorem plugFinal : Plug NoPushReq RT (fun s => OXs s ∧ NoPPQ s) where
+  oh := fun h => h.1.oh
+  blank := fun hb _ => ⟨OXs_blank hb, NoPPQ_blank hb⟩
+  step := fun g _ hd hx op hpre hin _ hnw _ hA =>
+    ⟨OXs_step g.g3.good.npi hd hx.1 op (oxPre_of g hpre hin) hpre.2.2.1 (opNoWriter_of hnw) (op_role g.g3.good.npi op),
+     NoPPQ_step hx.2 op hA⟩
+  pc := fun _ hw hj _ hx fuel io tag hn _ => OXs_pollComplete hw hj hx.1 hx.2 fuel io tag hn
+  pr := fun g _ _ hx fuel io tag =>
+    ⟨OXs_pollSendPendingRefusal hx.1 fuel _ io tag (op_role g.g3.good.npi (.pollSendPendingRefusal fuel _ io tag)),
+     NoPPQ_step hx.2 (.pollSendPendingRefusal fuel _ io tag) (by intro p v f e; cases e)⟩
+
+/-- the one lemma still open when `push_request` is used: `poll_complete` keeps `OXs` (in a good, un-panicked state) -/
+def PcOX : Prop :=
+  ∀ {g : ConnRecvP.Ghost} {s : Streams} {w : Writer} {H : List Nat}, Good4 s H → WI (fun _ => False) g s w → FJ s → KM s w → OXs s →
+    ∀ (fuel : Nat) (io : Tio) (tag : String), (Streams.pollComplete fuel s w io tag).1.panicked = none →
+    OXs (Streams.pollComplete fuel s w io tag).1
+
+theorem plug_of_pc (h : PcOX) : Plug AllOps RT OXs where
+  oh := OXs.oh
+  blank := fun hb _ => OXs_blank hb
+  step := plugOX.step
+  pc := fun g hw hj hk hx fuel io tag hn _ => h g hw hj hk hx fuel io tag hn
+  pr := plugOX.pr
+
+/-- **the stream-layer theorem, no `push_request`: NO residual hypothesis** -/
+theorem wreach_final {s : Streams} {w : Writer} {H T : List Nat} (h : WReach NoPushReq RT s w H T) (he : ErrOK s) :
+    (s.panicked = none ∧ GoodW (fun s => OXs s ∧ NoPPQ s) s w H T) ∨ ∃ m, s.panicked = some m ∧ FuelAll m :=
+  wreach_good plugFinal h he
+
+/-- **the stream-layer theorem with `push_request`; residual state hypothesis: `OXs` after each `poll_complete`** -/
+theorem wreach_residual {s : Streams} {w : Writer} {H T : List Nat} (h : WReach AllOps OXs s w H T) (he : ErrOK s) :
+    (s.panicked = none ∧ GoodW OXs s w H T) ∨ ∃ m, s.panicked = some m ∧ FuelAll m :=
+  wreach_good plugOX h he
 
 /-- in an un-panicked state of a history the request head `next_incoming` hands out is there for `take_request` -/
-theorem wreach_accept {R Q : Streams → Prop} (P : Plug R Q) {s : Streams} {w : Writer} {H T : List Nat} (h : WReach R s w H T)
+theorem wreach_accept {A : Op → Prop} {R Q : Streams → Prop} (P : Plug A R Q) {s : Streams} {w : Writer} {H T : List Nat} (h : WReach A R s w H T)
     (he : ErrOK s) (hn : s.panicked = none) {k : Nat} (hk : s.nextIncoming.2 = some k) : ReqHead (s.nextIncoming.1.stream k) := by
   rcases wreach_good P h he with ⟨_, g⟩ | ⟨m, hm, _⟩
   · exact ((nextIncoming_npi g.g4.g3.good.npi g.g4.j g.g4.g3.good.hok).2.2.2 k hk).2.2.2.2.2
   · rw [hn] at hm; cases hm
 
-instance (x : Stream) : Decidable (OHead x) := by unfold OHead; infer_instance
+instance {α : Type} (l : List α) : Decidable (l = []) :=
+  match l with
+  | [] => isTrue rfl
+  | _ :: _ => isFalse (fun h => by cases h)
 
-theorem OH_of_slab {s : Streams} (h : ∀ x ∈ s.store.slab, OHead x) : OH s := by
+instance (l : List SFrame) : Decidable (hnd l) := by unfold hnd; infer_instance
+instance (x : Stream) : Decidable (Nn x) := by unfold Nn; infer_instance
+instance (x : Stream) : Decidable (Wv x) := by unfold Wv; infer_instance
+instance (x : Stream) : Decidable (Dd x) := by unfold Dd; infer_instance
+
+instance (sv : Bool) (r : Nat) (x : Stream) : Decidable (XEr sv r x) :=
+  decidable_of_iff ((locId sv x.id = true → suB x.state = true → Nn x) ∧ (flagB x = true → Wv x ∨ Dd x) ∧
+      (flagB x = true → x.bufferedSendData ≤ dsum x.pendingSend + r))
+    ⟨fun h => ⟨h.1, h.2.1, h.2.2⟩, fun h => ⟨h.n, h.f, h.e⟩⟩
+
+theorem OXs_of_slab {s : Streams} (h : ∀ x ∈ s.store.slab, XE s.counts.isServer x) : OXs s := by
   intro k
   rcases stream_mem_or_blank s k with hm | hb
   · exact h _ hm
-  · rw [hb]; exact OHead.blank k
+  · rw [hb]; exact XEr.blank 0 k
 
-theorem WReach.op' {R : Streams → Prop} {s : Streams} {w : Writer} {H T : List Nat} (op : Op) (h : WReach R s w H T)
+theorem WReach.op' {A : Op → Prop} {R : Streams → Prop} {s : Streams} {w : Writer} {H T : List Nat} (op : Op) (h : WReach A R s w H T)
     (hnw : usesWriter op = false) (hnp : ∀ m, op ≠ .panic m) (hpre : opPre5 s T op)
-    (hin : ∀ k, opKey3 op = some k → k ∈ H) (hR : R (op.apply s)) {H' T' : List Nat}
-    (eh : H' = opHandles3 s H op) (et : T' = opResp s H T op) : WReach R (op.apply s) w H' T' := by
-  subst eh; subst et; exact .op op h hnw hnp hpre hin hR
+    (hin : ∀ k, opKey3 op = some k → k ∈ H) (hA : A op) {H' T' : List Nat}
+    (eh : H' = opHandles3 s H op) (et : T' = opResp s H T op) : WReach A R (op.apply s) w H' T' := by
+  subst eh; subst et; exact .op op h hnw hnp hpre hin hA
 
 /-- witness: a client (ENABLE_PUSH = 0) sends a request, `poll_complete` writes it, the response head arrives, the response
     future returns it, the handle is dropped, `poll_complete` again, EOF -/
@@ -44,26 +117,26 @@ def wP2 := Streams.pollComplete 8 wS4 wP1.2.1 {} "t"
 def wS5 : Streams := (Op.recvEof false).apply wP2.1
 
 set_option maxRecDepth 20000 in
-theorem wS5_wreach : WReach OH wS5 wP2.2.1 [] [] := by
-  have r0 : WReach OH wInit3 {} [] [] := .init wInit3_init2 wInit3_nopush rfl rfl (OH_blank wInit3_init2.blank)
-  have r1 : WReach OH wS1 {} [0] [0] :=
+theorem wS5_wreach : WReach NoPushReq RT wS5 wP2.2.1 [] [] := by
+  have r0 : WReach NoPushReq RT wInit3 {} [] [] := .init wInit3_init2 wInit3_nopush rfl rfl
+  have r1 : WReach NoPushReq RT wS1 {} [0] [0] :=
     r0.op' (.sendRequest false [] true none) rfl (by intro m e; cases e) ⟨fun _ => trivial, trivial, trivial, trivial⟩
-      (by intro k h; cases h) (OH_of_slab (by decide +kernel)) (by decide +kernel) (by decide +kernel)
-  have r2 : WReach OH wP1.1 wP1.2.1 [0] [0] := .pollComplete 8 {} "t" r1 (OH_of_slab (by decide +kernel))
-  have r3 : WReach OH wS2 wP1.2.1 [0] [0] :=
+      (by intro k h; cases h) (by intro p v f e; cases e) (by decide +kernel) (by decide +kernel)
+  have r2 : WReach NoPushReq RT wP1.1 wP1.2.1 [0] [0] := .pollComplete 8 {} "t" r1 trivial
+  have r3 : WReach NoPushReq RT wS2 wP1.2.1 [0] [0] :=
     r2.op' (.recvHeaders { sid := 1, eos := true, status := some [50, 48, 48] }) rfl (by intro m e; cases e)
       ⟨fun _ => (by show _ = none; decide +kernel), trivial, trivial, trivial⟩ (by intro k h; cases h)
-      (OH_of_slab (by decide +kernel)) (by decide +kernel) (by decide +kernel)
-  have r4 : WReach OH wS3 wP1.2.1 [0] [] :=
+      (by intro p v f e; cases e) (by decide +kernel) (by decide +kernel)
+  have r4 : WReach NoPushReq RT wS3 wP1.2.1 [0] [] :=
     r3.op' (.recvPollResponse 4 0 "f") rfl (by intro m e; cases e)
       ⟨fun h => (by cases h), trivial, trivial, (by show 0 ∈ [0]; decide)⟩ (by intro k h; cases h; decide)
-      (OH_of_slab (by decide +kernel)) (by decide +kernel) (by decide +kernel)
-  have r5 : WReach OH wS4 wP1.2.1 [] [] :=
+      (by intro p v f e; cases e) (by decide +kernel) (by decide +kernel)
+  have r5 : WReach NoPushReq RT wS4 wP1.2.1 [] [] :=
     r4.op' (.dropStreamRef 0) rfl (by intro m e; cases e) ⟨fun _ => trivial, trivial, trivial, trivial⟩
-      (by intro k h; cases h; decide) (OH_of_slab (by decide +kernel)) (by decide +kernel) (by decide +kernel)
-  have r6 : WReach OH wP2.1 wP2.2.1 [] [] := .pollComplete 8 {} "t" r5 (OH_of_slab (by decide +kernel))
+      (by intro k h; cases h; decide) (by intro p v f e; cases e) (by decide +kernel) (by decide +kernel)
+  have r6 : WReach NoPushReq RT wP2.1 wP2.2.1 [] [] := .pollComplete 8 {} "t" r5 trivial
   exact r6.op' (.recvEof false) rfl (by intro m e; cases e) ⟨fun _ => trivial, trivial, trivial, trivial⟩
-    (by intro k h; cases h) (OH_of_slab (by decide +kernel)) (by decide +kernel) (by decide +kernel)
+    (by intro k h; cases h) (by intro p v f e; cases e) (by decide +kernel) (by decide +kernel)
 
 set_option maxRecDepth 20000 in
 theorem wS5_facts : ErrOK wS5 ∧ wS5.panicked = none ∧ wS5.store.slab.length = 0 :=
